@@ -218,14 +218,18 @@ class Ctx:
             self.broken_ties.append("leanchecker rejected " + " ".join(modules) + ": " + out[-800:])
 
     # -- violations -------------------------------------------------------
-    def violation(self, what: str, replay: dict[str, Any], key: Any = None, concrete: bool = True) -> None:
-        """Record a failing input (concrete) or a broken tie without one."""
+    def violation(self, what: str, replay: dict[str, Any], key: Any = None, concrete: bool = True,
+                  alt_keys: list[Any] | None = None) -> None:
+        """Record a failing input (concrete) or a broken tie without one.  `alt_keys`: further keys under which the
+        failing input may be listed as a known finding (a definition can belong to several recorded classes)."""
         k = canon_key(key if key is not None else replay.get("input"))
+        ks = [k] + [canon_key(a) for a in (alt_keys or [])]
         for f in self.findings:
-            if f.get("key") == k:
+            if f.get("key") in ks:
                 msg = f"KNOWN-FINDING: property={self.prop} {f.get('what', what)}"
                 if msg not in self.known_hits:
                     self.known_hits.append(msg)
+                self.known_count = getattr(self, "known_count", 0) + 1
                 return
         # separate budgets: disagreements between model and code must never crowd out the search for a
         # concrete failing input on the code itself
@@ -240,6 +244,7 @@ class Ctx:
     def finish(self) -> int:
         self.cov["distinct_nontrivial"] = len(self._distinct)
         self.cov["input_distribution"] = self.dist
+        self.cov["known_finding_cases"] = getattr(self, "known_count", 0)
         if self.level == "proof" or self.obligations:
             self.cov["obligations"] = len(self.obligations)
             self.cov["discharged"] = len(self.discharged)
